@@ -391,14 +391,21 @@ class FreeEnergy(InterpolatableFunction):
                         f"vev={ode.y}"
                     )
                     break
-                if TList.size > 0 and abs(ode.t - TList[-1]) <= 1e-10 * abs(ode.t):
-                    # The integrator reached its end point in two steps, the last one of
-                    # the size of the rounding error. Two abscissae that close make the
-                    # cubic spline (and its derivatives) ill-conditioned: keep the last.
-                    TList[-1] = ode.t
-                    fieldList[-1] = ode.y
-                    potentialEffList[-1] = potentialEffT
-                    continue
+                # Do not tabulate points much closer to each other than the step size:
+                # the integrator starts with steps as small as 1e-6 (absolute) and may
+                # reach its end point with a step of the size of the rounding error. A
+                # cubic spline through abscissae that close amplifies the rounding of
+                # the potential, and d2p/dT2 and the sound speed come out wrong there.
+                lastStoredT = TList[-1] if TList.size > 0 else T0
+                if abs(ode.t - lastStoredT) < 1e-3 * dT:
+                    if ode.status == "running":
+                        continue
+                    if TList.size > 1:
+                        # end point of the integration: it replaces the last stored point
+                        TList[-1] = ode.t
+                        fieldList[-1] = ode.y
+                        potentialEffList[-1] = potentialEffT
+                        continue
                 # append results to lists
                 TList = np.append(TList, [ode.t], axis=0)
                 fieldList = np.append(fieldList, [ode.y], axis=0)
